@@ -1,6 +1,7 @@
 SPECIFICATION Spec
 CONSTANTS
-  Depth2 = TRUE
+  ParserMode <- ModeJson
+  Depth2 = FALSE
   Emit = TRUE
 INVARIANT InvIdealRoundTrip
 INVARIANT InvRoundTripModuloKnown
